@@ -629,6 +629,14 @@ func invGal(r *ring.Ring, galEl uint64) uint64 {
 	return ring.ModExp(galEl, twoN-1, twoN)
 }
 
+// ROTNORM control: keys advertised for the raw indexes
+func galoisForDiags(p rlwe.Parameters, diags []int) (galEls []uint64) {
+	for _, d := range diags {
+		galEls = append(galEls, p.GaloisElement(d))
+	}
+	return
+}
+
 func rnsBad(r *ring.Ring, v uint64) (rns ring.RNSScalar) {
 	rns = make(ring.RNSScalar, r.Level()+1)
 	for i := range rns {
